@@ -489,6 +489,15 @@ DataItems(code) == FoldLeft(LAMBDA acc, ins : IF ins.op = "DATA" THEN acc \o ins
 
 Goto(prog, st, line) == IF line \in DOMAIN prog.lab THEN [st EXCEPT !.pc = prog.lab[line]] ELSE Stop(st, "error", "undefined-line")
 
+\* The FOR a NEXT belongs to in the text (a stack walk over the instructions before it; 0 if none).  The translator pairs
+\* FOR and NEXT by the text; Color BASIC pairs them at run time.  The two agree for programs whose loops are entered at
+\* their FOR (property C02: "lexically nested loops"); a run that reaches a NEXT whose run-time FOR is another one than
+\* its textual FOR (a jump into a loop body) is outside that fragment and is left unjudged.
+TextualFor(code, pc) ==
+  LET stack == FoldLeft(LAMBDA stk, q : IF code[q].op = "FOR" THEN Append(stk, q)
+                                        ELSE IF code[q].op = "NEXT" /\ stk # <<>> THEN SubSeq(stk, 1, Len(stk) - 1) ELSE stk,
+                        <<>>, [q \in 1..(pc - 1) |-> q]) IN
+  IF stack = <<>> THEN 0 ELSE stack[Len(stack)]
 Step1(prog, lang, st0) ==
   LET st == [st0 EXCEPT !.steps = @ + 1]
       ins == prog.code[st.pc]
@@ -589,8 +598,10 @@ Step1(prog, lang, st0) ==
                  IF k = 0 THEN Stop(st, "error", "nf")
                  ELSE LET f == st.fs[k]
                           cur == VarGetD(st, f.v, "")
-                          v2 == Add(cur, f.stp) IN
-                      IF ~IsNum(cur) \/ ~IsNum(v2) THEN Stop(st, "unjudged", "sym:next")
+                          v2 == Add(cur, f.stp)
+                          tf == TextualFor(prog.code, st.pc) IN
+                      IF tf # 0 /\ tf # f.body - 1 THEN Stop(st, "unjudged", "next-reached-by-a-jump-into-another-loop")
+                      ELSE IF ~IsNum(cur) \/ ~IsNum(v2) THEN Stop(st, "unjudged", "sym:next")
                       ELSE LET cont == IF f.stp[2] >= 0 THEN ~Lt(f.lim, v2) ELSE ~Lt(v2, f.lim)
                                s1 == StoreD(st, N4("var", f.v, "", ""), <<>>, v2, IF cont THEN "NEXT" ELSE "NEXT-exit") IN
                            IF cont THEN [s1 EXCEPT !.pc = f.body, !.fs = SubSeq(@, 1, k)]
